@@ -128,6 +128,19 @@ class Receiver:
         st, asm = common.impl_call(lambda: bytes(self.obj.reassemble_chunks()))
         return done, (asm if st == "ok" else None)
 
+    async def timed_out(self):
+        """The pump gives up after 5 s of REAL time without a packet; on a starved machine that is a property of the
+        run, not of the code: such a replay is repeated."""
+        if not self.obj.done() or self.obj.cancelled():
+            return False
+        try:
+            await self.obj
+        except (asyncio.TimeoutError, TimeoutError):
+            return True
+        except Exception:  # noqa
+            return False
+        return False
+
 
 async def _cancel_tasks():
     cur = asyncio.current_task()
@@ -145,7 +158,9 @@ async def _t_replay_async(edge_ids):
     g = _TG
     out = []
     steps = 0
-    for ei in edge_ids:
+    todo = [(ei, 0) for ei in edge_ids]
+    while todo:
+        ei, attempt = todo.pop()
         e = g.edges[ei]
         path = g.path_to(e["_s"])
         init = _TINITS[common.skey((path[0] if path else e)["src"])]
@@ -164,6 +179,12 @@ async def _t_replay_async(edge_ids):
             if st != "ok":
                 raised = r
             steps += 1
+        if await rcv.timed_out():
+            await _cancel_tasks()
+            if attempt >= 3:
+                raise MachineryError("transfer replay keeps hitting the 5 s real-time timeout of the pump (machine starved)")
+            todo.append((ei, attempt + 1))
+            continue
         done, asm = rcv.observe()
         obs = e["obs"]
         bad = []
@@ -322,20 +343,31 @@ async def _t_walks_async(args):
             if rng.random() < 0.15:
                 seq.append(-1)
         seq += [rng.choice(order)]
-        rcv = Receiver(proto)
-        await rcv.start(n)
-        for i in seq:
-            if i < 0:
-                await rcv.arrive(len(pieces) - 1, True, b"\x55" * 9, foreign=True)
-                ev = {"ev": "Foreign"}
-            else:
-                await rcv.arrive(i, eofs[i], pieces[i])
-                ev = {"ev": "Arrive", "i": i}
-            done, asm = rcv.observe()
-            ev["done"] = done
-            ev["asm_is_payload"] = asm == payload
-            evs.append(ev)
-        await _cancel_tasks()
+        start = evs
+        for attempt in range(4):
+            evs = list(start)
+            rcv = Receiver(proto)
+            await rcv.start(n)
+            starved = False
+            for i in seq:
+                if i < 0:
+                    await rcv.arrive(len(pieces) - 1, True, b"\x55" * 9, foreign=True)
+                    ev = {"ev": "Foreign"}
+                else:
+                    await rcv.arrive(i, eofs[i], pieces[i])
+                    ev = {"ev": "Arrive", "i": i}
+                if await rcv.timed_out():
+                    starved = True
+                    break
+                done, asm = rcv.observe()
+                ev["done"] = done
+                ev["asm_is_payload"] = asm == payload
+                evs.append(ev)
+            await _cancel_tasks()
+            if not starved:
+                break
+        else:
+            raise MachineryError("transfer walk keeps hitting the 5 s real-time timeout of the pump (machine starved)")
         traces.append(evs)
     return traces
 
@@ -396,7 +428,8 @@ def _transfer(chk: Check):
     else:
         _transfer_b1(chk, list(range(0, 14)), list(range(0, 18)), [4, 5], 3, "C4,5 N<=5 +3")
         _transfer_b1(chk, [0, 2, 3, 4, 10, 11, 17], [0, 1, 6, 7, 8, 14, 21], [7], 3, "C7 N<=3 +3")
-    _transfer_b2(chk, 2 if quick else 12)
+        _transfer_b1(chk, [], [0, 3, 6, 9, 12, 15, 18], [3], 2, "transfer only C3 N<=6 +2")   # xfer needs C >= its 4-byte prefix
+    _transfer_b2(chk, 2 if quick else 30)
 
 
 
@@ -996,7 +1029,7 @@ def _asset_chunk(args):
 
 def _assets(chk: Check):
     quick = chk.tier == "quick"
-    n_anim, n_mesh = (40, 12) if quick else (400, 120)
+    n_anim, n_mesh = (40, 12) if quick else (600, 150)
     jobs = [(chk.rng.randrange(1 << 30), n_anim, n_mesh) for _ in range(common.NCPU)]
     chunks = common.parallel_map(_asset_chunk, jobs)
     agg = _Agg()
